@@ -501,11 +501,19 @@ func (w *Writer) finishSection() error {
 				panic("fail on fresh block")
 			}
 		}
+
+		// Flush the last block of this level too, so the next
+		// level (if any) has an entry for it.
+		if err := w.flushBlock(); err != nil {
+			return err
+		}
+		if len(w.index) >= len(idx) {
+			// Keys so large that an index block holds a single
+			// entry: another level would not be any smaller.
+			break
+		}
 	}
 	w.index = nil
-	if err := w.flushBlock(); err != nil {
-		return err
-	}
 
 	blockStats := w.getBlockStats(typ)
 	blockStats.IndexBlocks = w.Stats.idxStats.Blocks - before
